@@ -418,6 +418,15 @@ CLASSIFIERS = {
 def make_machine(ctx, info_cache, lib):
     loop_idx = st.integers(0, 7)
     node_idx = st.integers(0, 11)
+    # optional restriction of the loop choice to one loop type
+    loop_of = st.sampled_from([None, None, None, "", "colour", "colours"])
+
+    def lstep(kind, loop, kind_of, **extra):
+        step = {"t": kind, "loop": loop}
+        if kind_of is not None:
+            step["of"] = kind_of
+        step.update({k: v for k, v in extra.items() if v})
+        return step
 
     class C23Machine(RuleBasedStateMachine):
         def __init__(self):
@@ -572,44 +581,38 @@ def make_machine(ctx, info_cache, lib):
             """Keeps Hypothesis going when the history has ended."""
 
         @precondition(lambda self: not self.finished)
-        @rule(loop=loop_idx)
-        def colour(self, loop):
-            self._after({"t": "colour", "loop": loop}, False)
+        @rule(loop=loop_idx, of=loop_of)
+        def colour(self, loop, of):
+            self._after(lstep("colour", loop, of), False)
 
         @precondition(lambda self: not self.finished)
-        @rule(loop=loop_idx)
-        def omp_pardo(self, loop):
-            self._after({"t": "omp_pardo", "loop": loop}, True)
+        @rule(loop=loop_idx, of=loop_of)
+        def omp_pardo(self, loop, of):
+            self._after(lstep("omp_pardo", loop, of), True)
 
         @precondition(lambda self: not self.finished)
-        @rule(loop=loop_idx)
-        def omp_do(self, loop):
-            self._after({"t": "omp_do", "loop": loop}, True)
+        @rule(loop=loop_idx, of=loop_of)
+        def omp_do(self, loop, of):
+            self._after(lstep("omp_do", loop, of), True)
 
         @precondition(lambda self: not self.finished)
-        @rule(loop=loop_idx, seq=st.sampled_from([False] * 5 + [True]),
+        @rule(loop=loop_idx, of=loop_of,
+              seq=st.sampled_from([False] * 5 + [True]),
               noindep=st.sampled_from([False] * 3 + [True]))
-        def acc_loop(self, loop, seq, noindep):
-            step = {"t": "acc_loop", "loop": loop}
-            if seq:
-                step["seq"] = True
-            if noindep:
-                step["noindep"] = True
-            self._after(step, not seq)
+        def acc_loop(self, loop, of, seq, noindep):
+            self._after(lstep("acc_loop", loop, of, seq=seq,
+                              noindep=noindep), not seq)
 
         @precondition(lambda self: not self.finished and self.case["dm"])
-        @rule(loop=loop_idx, depth=st.sampled_from([0, 0, 1, 2, 3]))
-        def redundant(self, loop, depth):
-            self._after({"t": "redundant", "loop": loop, "depth": depth},
-                        False)
+        @rule(loop=loop_idx, of=loop_of,
+              depth=st.sampled_from([0, 0, 1, 2, 3]))
+        def redundant(self, loop, of, depth):
+            self._after(lstep("redundant", loop, of, depth=depth), False)
 
         @precondition(lambda self: not self.finished)
-        @rule(loop=loop_idx, same=st.booleans())
-        def fuse(self, loop, same):
-            step = {"t": "fuse", "loop": loop}
-            if same:
-                step["same_space"] = True
-            self._after(step, False)
+        @rule(loop=loop_idx, of=loop_of, same=st.booleans())
+        def fuse(self, loop, of, same):
+            self._after(lstep("fuse", loop, of, same_space=same), False)
 
         @precondition(lambda self: not self.finished)
         @rule(node=node_idx, length=st.integers(0, 3))
